@@ -29,17 +29,24 @@ def supportedExt : List Str := Gen.SUPPORTED_EXTENSIONS
 
 inductive Loaded | unit (q : QUnit) | loadErr (path : Str)
 
-/-- load_units_from_dir over all directories: first file of a name wins; a file that fails to load does not
-    mark its name as seen -/
-def loadAll (t : Tree) : List Loaded :=
-  ((allDirs t).foldl (fun (acc : List Str × List Loaded) d =>
-    (t.files.filter fun (p, _) => parentDir p == d && supportedExt.contains (extension (fileName p))).foldl
-      (fun (acc : List Str × List Loaded) (p, content) =>
-        let n := fileName p
-        if acc.1.contains n then acc
-        else match Parse.parse parseEnv content with
-          | .ok u => (acc.1 ++ [n], acc.2 ++ [Loaded.unit { path := p, unit := u }])
-          | .error _ => (acc.1, acc.2 ++ [Loaded.loadErr p])) acc) ([], [])).2
+/-- the unit files in discovery order: every directory of the search order, and within it the files with a
+    supported extension (in the listing order of the tree) -/
+def candidates (t : Tree) : List (Str × Str) :=
+  (allDirs t).flatMap fun d =>
+    t.files.filter fun (p, _) => parentDir p == d && supportedExt.contains (extension (fileName p))
+
+/-- one step of load_units_from_dir: a file whose name was already loaded is skipped; a file that fails to load
+    is reported and does not mark its name as seen -/
+def loadStep (acc : List Str × List Loaded) (pc : Str × Str) : List Str × List Loaded :=
+  let n := fileName pc.1
+  if acc.1.contains n then acc
+  else match Parse.parse parseEnv pc.2 with
+    | .ok u => (acc.1 ++ [n], acc.2 ++ [Loaded.unit { path := pc.1, unit := u }])
+    | .error _ => (acc.1, acc.2 ++ [Loaded.loadErr pc.1])
+
+def loadFrom (cands : List (Str × Str)) : List Loaded := (cands.foldl loadStep ([], [])).2
+
+def loadAll (t : Tree) : List Loaded := loadFrom (candidates t)
 
 def templateParts (name : Str) : Option Str × Option Str :=
   match splitOnce '@' (fileStem name) with
